@@ -67,6 +67,7 @@ class Ctx:
 
     # ---- symbols
     def name(self, base):
+        base = base.replace("'", '^').replace('"', '^').replace('|', '!').replace('\\', '!').replace(' ', '_')
         n = self.counter.get(base, 0)
         self.counter[base] = n + 1
         return base if n == 0 else '%s!%d' % (base, n)
@@ -75,6 +76,10 @@ class Ctx:
         c = z3.Int(self.name(base))
         if report:
             self.symbols.append(c)
+            from . import nparr
+            if nparr.BOUND is not None:  # refutation mode: small window for input integers
+                w = 2 * nparr.BOUND + 2
+                self.assume(z3.And(c >= -w, c <= w))
         return c
 
     def bool(self, base, report=True):
